@@ -570,3 +570,28 @@ func Enumerate[C any](t *testing.T, tg Target[C], note string, iterate func(yiel
 
 // Errf is fmt.Errorf (shorter at call sites of oracles).
 func Errf(format string, a ...any) error { return fmt.Errorf(format, a...) }
+
+// ReplayOnly registers a target that produces no cases of its own (they come
+// from a native fuzz campaign) but can replay and regression-run saved ones.
+func ReplayOnly[C any](t *testing.T, tg Target[C]) {
+	t.Helper()
+	if replayPath != "" {
+		runFile(t, &tg, replayPath, "replay")
+		return
+	}
+	if shard == 0 {
+		files, _ := filepath.Glob(filepath.Join(verifRoot, "regressions", property, "*.json"))
+		sort.Strings(files)
+		for _, f := range files {
+			runFile(t, &tg, f, "regression")
+		}
+	}
+}
+
+// SaveFuzzFailure writes the JSON replay file of a case found by a native fuzz
+// target and returns its path (the fuzz engine's own corpus entry is kept too).
+func SaveFuzzFailure(prop, target string, c any, err error) string {
+	property = prop
+	b, _ := json.Marshal(c)
+	return writeReplay(target, b, err)
+}
